@@ -343,6 +343,31 @@ def zero_state_case(ctx, idx, rng):
     history_case(ctx, idx, rng, only_ops=['splitmerge', 'splitmerge', 'orth', 'compress', 'addsub', 'splitmerge', 'new'], zero_states=True)
 
 
+def truncating_tdvp2_case(ctx, idx, rng):
+    """Directed histories: two-site TDVP with STRONG truncation (tol_split 0.02 .. 0.1) and long steps (|dt| 1 .. 2) on charged random states, two to four
+    calls in a row: between the forward and the backward split of one bond a retained singular value moves from one charge sector to another while the bond
+    keeps its dimension and its end labels -- labels and tensors must follow each other exactly. Class invariant after every call."""
+    name = ('bose3', 'xxz1', 'xxz', 'fermi')[idx % 4]
+    L = int(rng.integers(4, 6)) if name != 'fermi' else 4
+    H = gen.model(name, L, gen.generic_params(rng))
+    psi = gen.rand_mps(rng, H.qd, L, str(rng.choice(['random', 'max'])), Dmax=8)
+    if np.linalg.norm(refs.dense_state(psi.A)) < 1e-8:
+        ctx.case(('truncating-tdvp2', 'zero-state'), nontrivial=False)
+        return
+    ncall = int(rng.integers(2, 5))
+    ctx.case(('truncating-tdvp2', name, f'L{L}', f'calls{ncall}'), sample={'model': name, 'L': L, 'qD': psi.qD})
+    ends = (psi.qD[0].copy(), psi.qD[-1].copy())
+    for k in range(ncall):
+        tol = float(rng.choice([0.02, 0.05, 0.1]))
+        dt = 1j * float(rng.uniform(1.0, 2.0)) * float(rng.choice([-1, 1]))
+        detail = {'model': name, 'L': L, 'call': k, 'tol_split': tol, 'dt': dt, 'qD_before': [q.copy() for q in psi.qD]}
+        ptn.integrate_local_twosite(H, psi, dt, int(rng.integers(1, 3)), numiter_lanczos=6, tol_split=tol)
+        inv = refs.mps_invariant(psi)
+        if not ctx.ok('truncating-tdvp2.class-invariant', inv is None, f'after call {k + 1}: {inv}', detail):
+            return
+        ctx.ok('truncating-tdvp2.total-charge-kept', np.array_equal(psi.qD[0], ends[0]) and np.array_equal(psi.qD[-1], ends[1]), 'boundary charges changed', detail)
+
+
 def history_case(ctx, idx, rng, only_ops=None, zero_states=False):
     maxsteps = 12 if ctx.tier == 'quick' else 30
     h = History(ctx, rng, maxsteps, only_ops, zero_states)
@@ -562,6 +587,7 @@ SPEC = {
     'workloads': [
         Workload('histories', history_case, quick=600, thorough=36000),
         Workload('zero-states', zero_state_case, quick=150, thorough=9000),
+        Workload('truncating-tdvp2', truncating_tdvp2_case, quick=200, thorough=8000),
         Workload('constructors', constructor_case, quick=420, thorough=42000),
         Workload('label-mutation', label_mutation_case, quick=360, thorough=36000),
         Workload('suite-soak', soak_case, quick=0, thorough=1, shardable=False),
